@@ -458,7 +458,8 @@ impl TimeGen {
 
 fn pick_time(r: &mut Rng, fs: f32, max_samples: f64) -> f32 {
     let t = match r.below(12) {
-        0 => 0.0,
+        // zero of either sign is "glide off"
+        0 => if r.chance(0.3) { -0.0 } else { 0.0 },
         1 => (*r.pick(&[0.5f64, 1.0, 1.5, 1.99, 2.0, 2.01, 3.0, 4.0, 5.0, 8.0, 50.0, 99.0, 100.0, 101.0]) / fs as f64) as f32,
         2 => *r.pick(&[10.0f32, 9.99, 10.5, 12.0, 100.0, 1e30, 1e-30, 1e-45, 0.05, 0.1, 1.0]),
         3 | 4 => r.log_uniform(0.5 / fs as f64, 200.0 / fs as f64) as f32,
@@ -724,7 +725,7 @@ pub fn run(ctx: &Ctx, prop: &str) -> Report {
                 0 => (r.log_uniform(100.0, max_n.max(101.0)) / fs as f64) as f32,
                 1 => (100.0 / fs as f64) as f32 * 1.0001,
                 2 => (r.uniform(0.0, 1.99) / fs as f64) as f32,
-                3 => 0.0,
+                3 => if j % 16 == 3 { -0.0 } else { 0.0 },
                 4 => (r.log_uniform(2.0, 100.0) / fs as f64) as f32,
                 _ => (r.log_uniform(100.0, max_n.max(101.0)) / fs as f64) as f32,
             };
